@@ -1,1 +1,548 @@
-// Verification-only module (cfg(kani)); harnesses are added here.
+// Verification-only module (cfg(kani)) for C03 (PublicMessage authentication, RFC 9420
+// section 6.1 / 6.2): the crypto-free DECISIONS of message_verifier.rs -
+//   * which key a message must verify under, per sender type (re-attribution to another
+//     sender / structurally invalid content is an error, never a panic);
+//   * which senders must / must not carry a membership tag, and that the tag decision is
+//     taken BEFORE the signature is looked at.
+// Cryptography is abstract: a ghost CipherSuiteProvider whose `mac` returns two symbolic bytes
+// and whose `verify` answers a symbolic boolean; every other provider method is unreachable
+// (the harness would fail on `unreachable!` otherwise).  No ratchet tree is materialised: the
+// member keys come from SignaturePublicKeysContainer::List (the container used for
+// PrivateMessage senders and by ExternalGroup), not from RatchetTree.
+use super::*;
+use crate::group::framing::{ApplicationData, Content, FramedContent};
+use crate::group::message_signature::{FramedContentAuthData, MessageSignature};
+use crate::group::proposal::{Proposal, RemoveProposal};
+use crate::group::Commit;
+use crate::identity::basic::BasicCredential;
+use crate::tree_kem::node::MAX_LEAF_INDEX;
+use crate::ExtensionList;
+use alloc::boxed::Box;
+use alloc::vec::Vec;
+use core::mem::ManuallyDrop;
+use mls_rs_core::crypto::{
+    CipherSuite, HpkeCiphertext, HpkeContextR, HpkeContextS, HpkePsk, HpkePublicKey,
+    HpkeSecretKey, SignatureSecretKey,
+};
+use mls_rs_core::protocol_version::ProtocolVersion;
+use zeroize::Zeroizing;
+
+// zeroize::optimization_barrier is inline asm (unsupported by Kani); ApplicationData is
+// ZeroizeOnDrop.  Same signature as zeroize 1.9.0 `pub fn optimization_barrier<T: ?Sized>(val: &T)`.
+fn noop_barrier<T: ?Sized>(_val: &T) {}
+
+fn key(b: u8) -> SignaturePublicKey {
+    SignaturePublicKey::from(alloc::vec![b])
+}
+
+fn is_key(k: &SignaturePublicKey, b: u8) -> bool {
+    let s: &[u8] = k.as_ref();
+    s.len() == 1 && s[0] == b
+}
+
+// ------------------------------------------------------------------ member keys (List)
+/// signing_identity_for_member(List(l), i):
+///   Ok(k)                  <==> i < |l| and l[i] == Some(k)
+///   Err(LeafNotFound(i))   otherwise (blank or out-of-range leaf)
+/// List length <= 3 (bounded), every index 0..=MAX_LEAF_INDEX, every blank pattern, key bytes
+/// symbolic.
+#[kani::proof]
+#[kani::unwind(5)]
+fn c03_signing_key_for_member_list_bounded_3() {
+    let n: usize = kani::any();
+    kani::assume(n <= 3);
+    let present: [bool; 3] = kani::any();
+    let kb: [u8; 3] = kani::any();
+    let mut list: Vec<Option<SignaturePublicKey>> = Vec::new();
+    let mut i = 0;
+    while i < n {
+        list.push(if present[i] { Some(key(kb[i])) } else { None });
+        i += 1;
+    }
+    let list = ManuallyDrop::new(list);
+    let idx: u32 = kani::any();
+    kani::assume(idx <= MAX_LEAF_INDEX);
+
+    let r = ManuallyDrop::new(signing_identity_for_member(
+        SignaturePublicKeysContainer::List(&list),
+        LeafIndex::unchecked(idx),
+    ));
+    let i = idx as usize;
+    match &*r {
+        Ok(k) => assert!(i < n && present[i] && is_key(k, kb[i])),
+        Err(e) => {
+            assert!(!(i < n && present[i]));
+            assert!(matches!(e, MlsError::LeafNotFound(x) if *x == idx));
+        }
+    }
+    kani::cover!(r.is_ok() && idx == 2);
+    kani::cover!(r.is_err() && i < n); // blank leaf
+    kani::cover!(r.is_err() && i >= n && n == 3); // out of range
+}
+
+// ------------------------------------------------------------------ external senders
+fn signer(b: u8) -> SigningIdentity {
+    SigningIdentity::new(
+        crate::identity::Credential::Basic(BasicCredential { identifier: Vec::new() }),
+        key(b),
+    )
+}
+
+/// signing_identity_for_external(i, signers):
+///   Ok(signers[i].signature_key)                  <==> i < |signers|
+///   Err(UnknownSigningIdentityForExternalSender)  otherwise
+/// |signers| <= 2 (bounded), every u32 index.
+#[kani::proof]
+#[kani::unwind(4)]
+fn c03_signing_key_for_external_bounded_2() {
+    let n: usize = kani::any();
+    kani::assume(n <= 2);
+    let kb: [u8; 2] = kani::any();
+    let mut signers: Vec<SigningIdentity> = Vec::new();
+    let mut i = 0;
+    while i < n {
+        signers.push(signer(kb[i]));
+        i += 1;
+    }
+    let signers = ManuallyDrop::new(signers);
+    let idx: u32 = kani::any();
+
+    let r = ManuallyDrop::new(signing_identity_for_external(idx, &signers));
+    match &*r {
+        Ok(k) => assert!((idx as usize) < n && is_key(k, kb[idx as usize])),
+        Err(e) => {
+            assert!((idx as usize) >= n);
+            assert!(matches!(e, MlsError::UnknownSigningIdentityForExternalSender));
+        }
+    }
+    kani::cover!(r.is_ok() && idx == 1);
+    kani::cover!(r.is_err() && n == 2);
+    kani::cover!(r.is_err() && n == 0);
+}
+
+// ------------------------------------------------------------------ dispatch on the sender type
+#[derive(Clone, Copy, PartialEq, Eq)]
+enum ContentShape {
+    Application,
+    ProposalRemove,
+    CommitNoPath,
+}
+
+fn content_of(shape: ContentShape) -> Content {
+    match shape {
+        ContentShape::Application => Content::Application(ApplicationData::from(Vec::new())),
+        ContentShape::ProposalRemove => Content::Proposal(Box::new(Proposal::Remove(
+            RemoveProposal { to_remove: LeafIndex::unchecked(0) },
+        ))),
+        ContentShape::CommitNoPath => {
+            Content::Commit(Box::new(Commit { proposals: Vec::new(), path: None }))
+        }
+    }
+}
+
+/// signing_identity_for_sender: the verification key is selected by the SENDER TYPE alone, and
+/// content that cannot come from that sender type is an error:
+///   member(i)            -> key of leaf i (List) | InvalidTreeIndex (i > 2^24-1) | LeafNotFound
+///   external(i)          -> i-th external sender | UnknownSigningIdentityForExternalSender
+///   new_member_commit    -> content must be a Commit (else ExpectedCommitForNewMemberCommit)
+///                           WITH a path (else CommitMissingPath)
+///   new_member_proposal  -> content must be an Add proposal (else
+///                           ExpectedAddProposalForNewMemberProposal)
+/// One harness per content shape (the content variant is then a literal: CBMC does not have to
+/// execute the drop / encode code of the other variants).
+fn dispatch_body(shape: ContentShape) {
+    let content = ManuallyDrop::new(content_of(shape));
+    let list = ManuallyDrop::new(alloc::vec![Some(key(7)), None]);
+    let signers = ManuallyDrop::new(alloc::vec![signer(9)]);
+    let idx: u32 = kani::any();
+    let k: u8 = kani::any();
+    kani::assume(k < 4);
+    let sender = match k {
+        0 => Sender::Member(idx),
+        1 => Sender::External(idx),
+        2 => Sender::NewMemberProposal,
+        _ => Sender::NewMemberCommit,
+    };
+
+    let r = ManuallyDrop::new(signing_identity_for_sender(
+        SignaturePublicKeysContainer::List(&list),
+        &sender,
+        &content,
+        &signers,
+    ));
+    match k {
+        0 => match &*r {
+            Ok(key) => assert!(idx == 0 && is_key(key, 7)),
+            Err(MlsError::InvalidTreeIndex) => assert!(idx > MAX_LEAF_INDEX),
+            Err(MlsError::LeafNotFound(x)) => assert!(*x == idx && idx >= 1 && idx <= MAX_LEAF_INDEX),
+            Err(_) => assert!(false),
+        },
+        1 => match &*r {
+            Ok(key) => assert!(idx == 0 && is_key(key, 9)),
+            Err(e) => {
+                assert!(idx != 0);
+                assert!(matches!(e, MlsError::UnknownSigningIdentityForExternalSender));
+            }
+        },
+        2 => assert!(matches!(&*r, Err(MlsError::ExpectedAddProposalForNewMemberProposal))),
+        _ => match shape {
+            ContentShape::CommitNoPath => assert!(matches!(&*r, Err(MlsError::CommitMissingPath))),
+            _ => assert!(matches!(&*r, Err(MlsError::ExpectedCommitForNewMemberCommit))),
+        },
+    }
+    kani::cover!(k == 0 && r.is_ok());
+    kani::cover!(k == 0 && idx == 0x0100_0000);
+    kani::cover!(k == 1 && r.is_ok());
+    kani::cover!(k == 3);
+}
+
+#[kani::proof]
+#[kani::unwind(4)]
+#[kani::stub(zeroize::optimization_barrier, noop_barrier)]
+fn c03_signing_identity_dispatch_application() {
+    dispatch_body(ContentShape::Application);
+}
+
+#[kani::proof]
+#[kani::unwind(4)]
+#[kani::stub(zeroize::optimization_barrier, noop_barrier)]
+fn c03_signing_identity_dispatch_proposal() {
+    dispatch_body(ContentShape::ProposalRemove);
+}
+
+#[kani::proof]
+#[kani::unwind(4)]
+#[kani::stub(zeroize::optimization_barrier, noop_barrier)]
+fn c03_signing_identity_dispatch_commit_without_path() {
+    dispatch_body(ContentShape::CommitNoPath);
+}
+
+// ------------------------------------------------------------------ ghost provider
+#[derive(Debug)]
+struct GhostErr;
+impl mls_rs_core::error::IntoAnyError for GhostErr {}
+
+struct NoCtx;
+impl HpkeContextS for NoCtx {
+    type Error = GhostErr;
+    fn seal(&mut self, _aad: Option<&[u8]>, _data: &[u8]) -> Result<Vec<u8>, GhostErr> {
+        unreachable!()
+    }
+    fn export(&self, _c: &[u8], _len: usize) -> Result<Zeroizing<Vec<u8>>, GhostErr> {
+        unreachable!()
+    }
+}
+impl HpkeContextR for NoCtx {
+    type Error = GhostErr;
+    fn open(&mut self, _aad: Option<&[u8]>, _ct: &[u8]) -> Result<Zeroizing<Vec<u8>>, GhostErr> {
+        unreachable!()
+    }
+    fn export(&self, _c: &[u8], _len: usize) -> Result<Zeroizing<Vec<u8>>, GhostErr> {
+        unreachable!()
+    }
+}
+
+/// `mac` -> two symbolic bytes (the "expected membership tag"); `verify` -> symbolic verdict,
+/// and it records under which key it was asked.  `crypto_allowed == false` turns both into
+/// `unreachable!`: used to show that a decision is taken without touching any cryptography.
+struct Ghost {
+    mac_out: [u8; 2],
+    sig_ok: bool,
+    crypto_allowed: bool,
+    verify_key: core::cell::Cell<Option<u8>>,
+    mac_calls: core::cell::Cell<u8>,
+}
+
+// the trait requires Send + Sync; the harness is single-threaded
+unsafe impl Sync for Ghost {}
+
+impl CipherSuiteProvider for Ghost {
+    type Error = GhostErr;
+    type HpkeContextS = NoCtx;
+    type HpkeContextR = NoCtx;
+
+    fn cipher_suite(&self) -> CipherSuite {
+        unreachable!()
+    }
+    fn hash(&self, _data: &[u8]) -> Result<Vec<u8>, GhostErr> {
+        unreachable!()
+    }
+    fn mac(&self, _key: &[u8], _data: &[u8]) -> Result<Vec<u8>, GhostErr> {
+        assert!(self.crypto_allowed);
+        self.mac_calls.set(self.mac_calls.get() + 1);
+        Ok(self.mac_out.to_vec())
+    }
+    fn aead_seal(
+        &self,
+        _key: &[u8],
+        _data: &[u8],
+        _aad: Option<&[u8]>,
+        _nonce: &[u8],
+    ) -> Result<Vec<u8>, GhostErr> {
+        unreachable!()
+    }
+    fn aead_open(
+        &self,
+        _key: &[u8],
+        _ciphertext: &[u8],
+        _aad: Option<&[u8]>,
+        _nonce: &[u8],
+    ) -> Result<Zeroizing<Vec<u8>>, GhostErr> {
+        unreachable!()
+    }
+    fn aead_key_size(&self) -> usize {
+        unreachable!()
+    }
+    fn aead_nonce_size(&self) -> usize {
+        unreachable!()
+    }
+    fn kdf_extract(&self, _salt: &[u8], _ikm: &[u8]) -> Result<Zeroizing<Vec<u8>>, GhostErr> {
+        unreachable!()
+    }
+    fn kdf_expand(&self, _prk: &[u8], _info: &[u8], _len: usize) -> Result<Zeroizing<Vec<u8>>, GhostErr> {
+        unreachable!()
+    }
+    fn kdf_extract_size(&self) -> usize {
+        unreachable!()
+    }
+    fn hpke_seal(
+        &self,
+        _remote_key: &HpkePublicKey,
+        _info: &[u8],
+        _aad: Option<&[u8]>,
+        _pt: &[u8],
+    ) -> Result<HpkeCiphertext, GhostErr> {
+        unreachable!()
+    }
+    fn hpke_seal_psk(
+        &self,
+        _remote_key: &HpkePublicKey,
+        _info: &[u8],
+        _aad: Option<&[u8]>,
+        _pt: &[u8],
+        _psk: HpkePsk<'_>,
+    ) -> Result<HpkeCiphertext, GhostErr> {
+        unreachable!()
+    }
+    fn hpke_open(
+        &self,
+        _ciphertext: &HpkeCiphertext,
+        _local_secret: &HpkeSecretKey,
+        _local_public: &HpkePublicKey,
+        _info: &[u8],
+        _aad: Option<&[u8]>,
+    ) -> Result<Zeroizing<Vec<u8>>, GhostErr> {
+        unreachable!()
+    }
+    fn hpke_open_psk(
+        &self,
+        _ciphertext: &HpkeCiphertext,
+        _local_secret: &HpkeSecretKey,
+        _local_public: &HpkePublicKey,
+        _info: &[u8],
+        _aad: Option<&[u8]>,
+        _psk: HpkePsk<'_>,
+    ) -> Result<Zeroizing<Vec<u8>>, GhostErr> {
+        unreachable!()
+    }
+    fn hpke_setup_s(
+        &self,
+        _remote_key: &HpkePublicKey,
+        _info: &[u8],
+    ) -> Result<(Vec<u8>, NoCtx), GhostErr> {
+        unreachable!()
+    }
+    fn hpke_setup_r(
+        &self,
+        _kem_output: &[u8],
+        _local_secret: &HpkeSecretKey,
+        _local_public: &HpkePublicKey,
+        _info: &[u8],
+    ) -> Result<NoCtx, GhostErr> {
+        unreachable!()
+    }
+    fn kem_derive(&self, _ikm: &[u8]) -> Result<(HpkeSecretKey, HpkePublicKey), GhostErr> {
+        unreachable!()
+    }
+    fn kem_generate(&self) -> Result<(HpkeSecretKey, HpkePublicKey), GhostErr> {
+        unreachable!()
+    }
+    fn kem_public_key_validate(&self, _key: &HpkePublicKey) -> Result<(), GhostErr> {
+        unreachable!()
+    }
+    fn random_bytes(&self, _out: &mut [u8]) -> Result<(), GhostErr> {
+        unreachable!()
+    }
+    fn signature_key_generate(&self) -> Result<(SignatureSecretKey, SignaturePublicKey), GhostErr> {
+        unreachable!()
+    }
+    fn signature_key_derive_public(&self, _k: &SignatureSecretKey) -> Result<SignaturePublicKey, GhostErr> {
+        unreachable!()
+    }
+    fn sign(&self, _k: &SignatureSecretKey, _data: &[u8]) -> Result<Vec<u8>, GhostErr> {
+        unreachable!()
+    }
+    fn verify(&self, k: &SignaturePublicKey, _sig: &[u8], _data: &[u8]) -> Result<(), GhostErr> {
+        assert!(self.crypto_allowed);
+        let s: &[u8] = k.as_ref();
+        self.verify_key.set(if s.len() == 1 { Some(s[0]) } else { None });
+        if self.sig_ok {
+            Ok(())
+        } else {
+            Err(GhostErr)
+        }
+    }
+}
+
+fn ghost(crypto_allowed: bool) -> Ghost {
+    Ghost {
+        mac_out: kani::any(),
+        sig_ok: kani::any(),
+        crypto_allowed,
+        verify_key: core::cell::Cell::new(None),
+        mac_calls: core::cell::Cell::new(0),
+    }
+}
+
+fn group_context() -> GroupContext {
+    GroupContext::new(
+        ProtocolVersion::MLS_10,
+        CipherSuite::from(1u16),
+        Vec::new(),
+        Vec::new(),
+        ExtensionList::new(), // no external_senders extension
+    )
+}
+
+fn application_message(sender: Sender, tag: Option<[u8; 2]>) -> PublicMessage {
+    PublicMessage {
+        content: FramedContent {
+            group_id: Vec::new(),
+            epoch: 0,
+            sender,
+            authenticated_data: Vec::new(),
+            content: Content::Application(ApplicationData::from(Vec::new())),
+        },
+        auth: FramedContentAuthData {
+            signature: MessageSignature::from(Vec::new()),
+            confirmation_tag: None,
+        },
+        membership_tag: tag.map(|t| MembershipTag::from(t.to_vec())),
+    }
+}
+
+/// verify_plaintext_authentication, NON-MEMBER senders (external, new_member_proposal,
+/// new_member_commit), RFC 9420 section 6.2 ("the membership_tag field ... only present for
+/// sender_type member"):
+///   tag present  ==> Err(MembershipTagForNonMember), whether or not a membership key is known,
+///                    and NO cryptographic operation is performed (Ghost { crypto_allowed:
+///                    false } would fail the proof);
+///   tag absent   ==> the decision is handed to the key selection of the sender type; for the
+///                    application-content message used here every non-member is then refused
+///                    before any cryptography as well.
+#[kani::proof]
+#[kani::unwind(4)]
+#[kani::stub(zeroize::optimization_barrier, noop_barrier)]
+fn c03_membership_tag_forbidden_for_non_members() {
+    let p = ghost(false);
+    let ctx = ManuallyDrop::new(group_context());
+    let idx: u32 = kani::any();
+    let k: u8 = kani::any();
+    kani::assume(k < 3);
+    let sender = match k {
+        0 => Sender::External(idx),
+        1 => Sender::NewMemberProposal,
+        _ => Sender::NewMemberCommit,
+    };
+    let tag: Option<[u8; 2]> = kani::any();
+    let has_key: bool = kani::any();
+    let mkey = [1u8, 2, 3];
+    let list = ManuallyDrop::new(alloc::vec![Some(key(7))]);
+
+    let r = ManuallyDrop::new(verify_plaintext_authentication(
+        &p,
+        application_message(sender, tag),
+        if has_key { Some(&mkey[..]) } else { None },
+        &ctx,
+        SignaturePublicKeysContainer::List(&list),
+    ));
+    match &*r {
+        Ok(_) => assert!(false),
+        Err(e) => {
+            if tag.is_some() {
+                assert!(matches!(e, MlsError::MembershipTagForNonMember));
+            } else {
+                match k {
+                    0 => assert!(matches!(e, MlsError::UnknownSigningIdentityForExternalSender)),
+                    1 => assert!(matches!(e, MlsError::ExpectedAddProposalForNewMemberProposal)),
+                    _ => assert!(matches!(e, MlsError::ExpectedCommitForNewMemberCommit)),
+                }
+            }
+        }
+    }
+    assert!(p.mac_calls.get() == 0 && p.verify_key.get().is_none());
+    kani::cover!(tag.is_some() && k == 0 && has_key);
+    kani::cover!(tag.is_some() && k == 2 && !has_key);
+    kani::cover!(tag.is_none() && k == 1);
+}
+
+/// verify_plaintext_authentication, MEMBER sender, membership key known (what Group passes):
+///   Ok(content)  <==>  tag present  and  tag == MAC(membership_key, TBM)  and  the sender's
+///                      leaf has a key  and  the signature verifies under THAT key
+///   tag absent or different ==> Err(InvalidMembershipTag) and the signature is never looked at
+///   and the accepted content is reported with the true sender and wire format.
+/// With no membership key (ExternalGroup, external commits) the tag of a member message is
+/// not checked at all (it cannot be): acceptance then rests on the signature alone.
+#[kani::proof]
+#[kani::unwind(5)]
+#[kani::stub(zeroize::optimization_barrier, noop_barrier)]
+fn c03_membership_tag_required_for_members() {
+    let p = ghost(true);
+    let ctx = ManuallyDrop::new(group_context());
+    let idx: u32 = kani::any();
+    let tag: Option<[u8; 2]> = kani::any();
+    let has_key: bool = kani::any();
+    let mkey = [1u8, 2, 3];
+    // leaf 0 has key 7, leaf 1 is blank
+    let list = ManuallyDrop::new(alloc::vec![Some(key(7)), None]);
+
+    let r = ManuallyDrop::new(verify_plaintext_authentication(
+        &p,
+        application_message(Sender::Member(idx), tag),
+        if has_key { Some(&mkey[..]) } else { None },
+        &ctx,
+        SignaturePublicKeysContainer::List(&list),
+    ));
+
+    let tag_ok = !has_key || tag == Some(p.mac_out);
+    match &*r {
+        Ok(c) => {
+            assert!(tag_ok && idx == 0 && p.sig_ok);
+            assert!(p.verify_key.get() == Some(7)); // verified under the key of leaf `idx`
+            assert!(c.content.sender == Sender::Member(idx));
+            assert!(c.wire_format == crate::WireFormat::PublicMessage);
+            assert!(c.auth.confirmation_tag.is_none());
+        }
+        Err(e) => {
+            if !tag_ok {
+                assert!(matches!(e, MlsError::InvalidMembershipTag));
+                assert!(p.verify_key.get().is_none()); // tag decision precedes the signature
+            } else if idx > MAX_LEAF_INDEX {
+                assert!(matches!(e, MlsError::InvalidTreeIndex));
+            } else if idx != 0 {
+                assert!(matches!(e, MlsError::LeafNotFound(x) if *x == idx));
+            } else {
+                assert!(!p.sig_ok && matches!(e, MlsError::InvalidSignature));
+            }
+        }
+    }
+    // the MAC is computed exactly when a membership key is known
+    assert!(p.mac_calls.get() == if has_key { 1 } else { 0 });
+
+    kani::cover!(r.is_ok() && has_key);
+    kani::cover!(r.is_ok() && !has_key && tag.is_none());
+    kani::cover!(has_key && tag.is_none());
+    kani::cover!(has_key && tag.is_some() && !tag_ok);
+    kani::cover!(tag_ok && idx == 0 && !p.sig_ok);
+    kani::cover!(tag_ok && idx == 1);
+}
